@@ -1,25 +1,52 @@
 import Mkts.Model.Float
 import Mkts.Model.ExceptDec
+import Mkts.Extracted.Skeletons
 /-!
 # Scalar aggregates and gap detection (uda/count, uda/min, uda/max, uda/avg, uda/gap, uda/uda.go)
 
 One definition per Go function.  A column is its Go slice type plus the values (integers for the
-integer types, IEEE bit patterns for `[]float32` / `[]float64`).  `ColumnToFloat32/64` convert only
-five slice types; for every other type the Go `switch` falls through and the function returns
-`(nil, nil)` — modelled as `none`.  Go errors / panics are explicit (`Except String`, the string is
+integer types, IEEE bit patterns for `[]float32` / `[]float64`).  Which slice types `ColumnToFloat32/64`
+convert, and what happens to any other type, is READ OFF THE REGENERATED SKELETON of the two
+functions (`Mkts.Extracted.Skel.uda_ColumnToFloat32/64`: one `case:<type>{` atom per clause of the
+type switch): a type without a clause falls through — to the `default:` clause returning an error
+if there is one (`err:unsupported`), else to `return outCol, nil` with the nil slice (`none`).  In the
+current source every numeric slice type has a clause and the default clause reports an error
+(pinned in Props/C23.lean); if a clause is removed the model follows the code.  Go errors / panics are explicit (`Except String`, the string is
 the canonical result class of the harness: `err:nocolumn`, `err:cast`, `panic:index`).
 -/
 namespace Mkts.Uda
 open Mkts.Float
 
 inductive ColType where
-  | f32 | f64 | int | i64 | i32          -- handled by ColumnToFloat32 / ColumnToFloat64
-  | i16 | i8 | u8 | u16 | u32 | u64      -- every other numeric column type of the database
+  | f32 | f64 | int | i64 | i32
+  | i16 | i8 | u8 | u16 | u32 | u64      -- (with the five above) every numeric column type of the database
+  | other                                -- a non-numeric column (`[]bool`)
 deriving DecidableEq, Repr
 
-def ColType.handled : ColType → Bool
-  | .f32 | .f64 | .int | .i64 | .i32 => true
-  | _ => false
+def ColType.numeric : ColType → Bool
+  | .other => false
+  | _ => true
+
+/-- the atom the skeleton shows for the clause of the type switch that handles this slice type -/
+def ColType.caseAtom : ColType → String
+  | .f32 => "case:[]float32{" | .f64 => "case:[]float64{" | .int => "case:[]int{"
+  | .i64 => "case:[]int64{" | .i32 => "case:[]int32{" | .i16 => "case:[]int16{"
+  | .i8 => "case:[]int8{" | .u8 => "case:[]uint8{" | .u16 => "case:[]uint16{"
+  | .u32 => "case:[]uint32{" | .u64 => "case:[]uint64{" | .other => "case:[]bool{"
+
+def hasSub : List String → List String → Bool
+  | [], pat => pat.isEmpty
+  | a :: l, pat => pat.isPrefixOf (a :: l) || hasSub l pat
+
+/-- does the type switch of the CURRENT `uda.ColumnToFloat32` have a clause for this slice type? -/
+def ColType.handled (ty : ColType) : Bool := Mkts.Extracted.Skel.uda_ColumnToFloat32.contains ty.caseAtom
+/-- the same for `uda.ColumnToFloat64` -/
+def ColType.handled64 (ty : ColType) : Bool := Mkts.Extracted.Skel.uda_ColumnToFloat64.contains ty.caseAtom
+
+def defaultClause : List String := ["case:default{", "call:fmt.Errorf", "return", "}"]
+/-- does the CURRENT `uda.ColumnToFloat32` report a slice type it has no clause for as an error? -/
+def defaultIsError : Bool := hasSub Mkts.Extracted.Skel.uda_ColumnToFloat32 defaultClause
+def defaultIsError64 : Bool := hasSub Mkts.Extracted.Skel.uda_ColumnToFloat64 defaultClause
 
 structure Column where
   ty : ColType
@@ -50,13 +77,14 @@ def toF64 (ty : ColType) (v : Int) : Nat :=
   | .f32 => convert b32 b64 v.toNat
   | _ => ofInt b64 v
 
-/-- uda.ColumnToFloat32 after the nil test: `none` is the nil slice of the fall-through -/
+/-- uda.ColumnToFloat32 after the nil test: `none` = no clause for the type (the caller below
+    turns it into the default clause's error or the nil slice of the fall-through) -/
 def columnToFloat32 (c : Column) : Option (List Nat) :=
   if c.ty.handled then some (c.vals.map (toF32 c.ty)) else none
 
 /-- uda.ColumnToFloat64 -/
 def columnToFloat64 (c : Column) : Option (List Nat) :=
-  if c.ty.handled then some (c.vals.map (toF64 c.ty)) else none
+  if c.ty.handled64 then some (c.vals.map (toF64 c.ty)) else none
 
 /-- run an aggregate over successive `Accum` calls, collecting the output after each call -/
 def runAgg {σ ο : Type} (accum : σ → Batch → Except String σ) (out : σ → ο) :
@@ -104,7 +132,8 @@ def minMaxAccum (step : Nat → Nat → Nat) (s : MinMax) (b : Batch) : Except S
   match b.col with
   | none => .error "err:nocolumn"
   | some c =>
-    let xs := (columnToFloat32 c).getD []      -- nil slice for unhandled types
+    if !c.ty.handled && defaultIsError then .error "err:unsupported" else
+    let xs := (columnToFloat32 c).getD []      -- nil slice when a type falls through without default clause
     if !s.isInitialized then
       match xs with
       | [] => .error "panic:index"             -- inputCol[0] on the nil slice
@@ -131,7 +160,9 @@ def avgAccum (s : Avg) (b : Batch) : Except String Avg :=
   if b.len == 0 then .ok s else
   match b.col with
   | none => .error "err:nocolumn"
-  | some c => .ok (((columnToFloat32 c).getD []).foldl avgStep s)
+  | some c =>
+    if !c.ty.handled && defaultIsError then .error "err:unsupported"
+    else .ok (((columnToFloat32 c).getD []).foldl avgStep s)
 
 /-- Avg.Output: `a.Avg / float64(a.Count)` (0/0 = NaN when nothing was accumulated) -/
 def avgOutput (s : Avg) : Nat := div b64 s.avg (ofInt b64 s.count)
